@@ -81,6 +81,9 @@ func (e *c08Env) add(kind, detail string) {
 	e.mu.Unlock()
 }
 
+// the names the documentation of Resource.Event lists as pre-defined or reserved
+var c08Reserved = []string{"change", "delete", "add", "remove", "patch", "reaccess", "unsubscribe", "query"}
+
 var errApply = errors.New("apply failed")
 
 // errApplyPool: what a failing apply handler may return - also the library's own
@@ -282,7 +285,8 @@ func (e *c08Env) step(rs res.Resource, rq *res.Request, st c08Step) {
 	case "custom":
 		switch st.Arg {
 		case "reserved":
-			rs.Event("change", nil)
+			// every event name the protocol reserves
+			rs.Event(c08Reserved[int(mon.Now())%len(c08Reserved)], []interface{}{nil, map[string]int{"x": 1}}[int(mon.Now())%2])
 		case "invalid":
 			rs.Event(c08BadNames[int(mon.Now())%len(c08BadNames)], map[string]int{"x": 1})
 		case "nil":
